@@ -20,6 +20,7 @@ import JaqVerif.Lemmas.C08Hash
 import JaqVerif.Lemmas.C08Val
 import JaqVerif.Lemmas.C08Eq
 import JaqVerif.Lemmas.C08Arr
+import JaqVerif.Lemmas.C08Contains
 
 namespace Jaq.C08
 open Jaq
@@ -463,6 +464,16 @@ theorem eqv_iff (m : Mode) (a b : Val) : Eqv m a b ↔ Good m a ∧ Good m b ∧
 theorem keysEqv_iff (m : Mode) (R : Val → Val → Prop) (o o' : Entries) :
     KeysEqv m R o o' ↔ All2 (fun p q => Eqv m p.1 q.1 ∧ R p.2 q.2) o o' := Iff.rfl
 
+/-- a non-trivial instance: `1` and `1.0` are `Eqv`; `{(1):"a"}` and `{(1.0):"a"}` are `KeysEqv` -/
+example : Eqv .smallInts (.num (.int 1)) (.num (.float 0x3ff0000000000000)) ∧
+    KeysEqv .smallInts Eq [(.num (.int 1), .tstr [97])] [(.num (.float 0x3ff0000000000000), .tstr [97])] := by
+  have e : Eqv .smallInts (.num (.int 1)) (.num (.float 0x3ff0000000000000)) :=
+    ⟨⟨by decide, by decide, by simp [NoNegZero, allNums, Num.noNegZero]⟩,
+     ⟨by decide, by decide, by
+        have : (0x3ff0000000000000 : UInt64) ≠ F64.negZero := by decide
+        simp [NoNegZero, allNums, Num.noNegZero, this]⟩, by decide⟩
+  exact ⟨e, ⟨e, rfl⟩, trivial⟩
+
 /-- `==` is an equivalence relation on the domain -/
 theorem eqv_equivalence (m : Mode) :
     (∀ a, Good m a → Eqv m a a) ∧ (∀ a b, Eqv m a b → Eqv m b a) ∧
@@ -556,6 +567,25 @@ for a searched sub-array -/
 theorem indices_congr (m : Mode) (x x' : List Val) (y y' : Val) (hx : All2 (Eqv m) x x') (hy : Eqv m y y') :
     indices x y = indices x' y' := indices_all2 hx hy
 
+/-- `contains` / `inside` (`inside` is `contains` with the operands swapped): values that are `==`
+are interchangeable on both sides — for values without byte strings and without objects
+(`plain`).  Byte strings: see §9 (the statement is false for them by the code's definition);
+objects: not proved. -/
+theorem contains_congr_partial (m : Mode) (a a' b b' : Val) (ha : Eqv m a a') (hb : Eqv m b b')
+    (pa : plain a = true) (pa' : plain a' = true) (pb : plain b = true) (pb' : plain b' = true) :
+    contains a b = contains a' b' ∧ contains b a = contains b' a' :=
+  ⟨contains_congr_plain ha hb pa pa' pb pb', contains_congr_plain hb ha pb pb' pa pa'⟩
+
+example : plain (.arr [.num (.int 1), .tstr [97], .arr [.null, .num (.float 0x3ff0000000000000)]]) = true := by
+  decide
+
+/-- the exception: a text string and the `==` byte string are not interchangeable in `contains`
+(substring search for two text strings, `==` for a text and a byte string) -/
+theorem contains_bytes_witness :
+    eq (.tstr [97, 98]) (.bstr [97, 98]) = true ∧
+    contains (.tstr [97, 98]) (.tstr [97]) = true ∧ contains (.bstr [97, 98]) (.tstr [97]) = false := by
+  decide
+
 /-! ## 8. More about `sort`, `min`/`max`, `unique` (round 2) -/
 
 /-- `min` / `max` return an element of the input that is extremal for the order -/
@@ -642,12 +672,12 @@ theorem bsearch_total (a : List Val) (x : Val) : bsearchSpec a x ≠ [] := by
 
 /-! ## 9. Stated, not proved (see design/notes/C08.md)
 
-  * `contains_congr` (`contains` / `inside`): `contains a b = contains a' b'` for `Eqv m a a'`,
-    `Eqv m b b'` — false as stated for strings: `contains` on two text strings or two byte strings is
-    substring search, on a text and a byte string it is `==`, so replacing a text string by the `==`
-    byte string changes the answer (the check does not alarm on it: the property's wording is about
-    look-up of values).  True without byte strings; needs the extensional characterisation of
-    object `==` (`∀ k, get x k ≈ get y k`) because the operands may differ in insertion order.
+  * `contains_congr` (`contains` / `inside`) for values that contain objects: `contains a b =
+    contains a' b'` for `Eqv m a a'`, `Eqv m b b'`, no byte strings.  Needs the extensional
+    characterisation of object `==` (`∀ k, get x k ≈ get y k`) because the operands may differ in
+    insertion order.  (With byte strings the statement is false: `contains_bytes_witness`; the check
+    does not alarm on it: the property's wording is about look-up of values, and `contains` on strings
+    is substring search.)
   * `merge_congr` for operands whose *values* are only `==` (nested objects in another insertion
     order, other representations inside the values): needs the same extensional characterisation.
   * `wfKeys_update`, `wfKeys_merge` (the invariant is preserved by `update` and `merge`).
